@@ -40,6 +40,7 @@ func runC15(c *Ctx) {
 	c.Rule("C15-R2", "error classification tables", 16)
 	c.Rule("C15-R3", "severity of API failures in problemFromError; strictness flows from Required", 6)
 	c.Rule("C15-R4", "error discipline at every API call site in internal/checks", 60)
+	defer c15NoStickyOutage(c)
 
 	prom := p.Pkg("internal/promapi")
 	if prom == nil {
@@ -866,4 +867,80 @@ func rangeSliceErrGuard(info *types.Info, pm map[ast.Node]ast.Node, as ast.Node,
 		})
 	}
 	return bad
+}
+
+// c15NoStickyOutage: processJob asks the server again for every job: a return
+// that is reachable without passing query.Run() hands out either the cached
+// value of an earlier SUCCESSFUL answer or the ErrUnsupported literal (an API
+// the server does not have). Anything else (a remembered connection error, a
+// "circuit breaker") keeps answering for an upstream after it has recovered,
+// so requests keep failing over although the first upstream is reachable again.
+func c15NoStickyOutage(c *Ctx) {
+	p := c.P
+	fi := c.MustFunc("C15-R1", "internal/promapi.processJob")
+	if fi == nil {
+		return
+	}
+	info := fi.Pkg.TypesInfo
+	fl := p.NewFlow(fi)
+	isRun := func(n ast.Node) bool {
+		found := false
+		inspectNoLit(n, func(m ast.Node) bool {
+			if call, ok := m.(*ast.CallExpr); ok {
+				if sel, ok := call.Fun.(*ast.SelectorExpr); ok && sel.Sel.Name == "Run" {
+					if t := info.TypeOf(sel.X); t != nil && typeQName(t) == "internal/promapi.querier" {
+						found = true
+					}
+				}
+			}
+			return true
+		})
+		return found
+	}
+	// values obtained from cache.get
+	cached := map[types.Object]bool{}
+	ast.Inspect(fi.Decl.Body, func(n ast.Node) bool {
+		as, ok := n.(*ast.AssignStmt)
+		if !ok || len(as.Rhs) != 1 {
+			return true
+		}
+		if call, ok := as.Rhs[0].(*ast.CallExpr); ok && isCallTo(info, call, "internal/promapi.queryCache.get") {
+			if o := objOf(info, as.Lhs[0]); o != nil {
+				cached[o] = true
+			}
+		}
+		return true
+	})
+	nRunless, bad := 0, ""
+	for _, r := range fl.Find(func(n ast.Node) bool { _, ok := n.(*ast.ReturnStmt); return ok }) {
+		target := r.Site
+		reach, _ := fl.Reach(fl.Entry(), func(s Site) bool { return s == target }, false, PathQ{Avoid: isRun})
+		if !reach {
+			continue
+		}
+		nRunless++
+		ret := r.Inner.(*ast.ReturnStmt)
+		ok := false
+		if len(ret.Results) == 1 {
+			e := ast.Unparen(ret.Results[0])
+			if ta, isTA := e.(*ast.TypeAssertExpr); isTA {
+				e = ast.Unparen(ta.X)
+			}
+			if id, isID := e.(*ast.Ident); isID && cached[info.Uses[id]] {
+				ok = true
+			}
+			if cl, isLit := e.(*ast.CompositeLit); isLit {
+				if v := litField(cl, "err"); v != nil {
+					if o := objOf(info, v); o != nil && o.Name() == "ErrUnsupported" && o.Parent() == o.Pkg().Scope() {
+						ok = true
+					}
+				}
+			}
+		}
+		if !ok {
+			bad = p.Pos(ret.Pos())
+		}
+	}
+	c.Check(nRunless >= 2 && bad == "", "C15-R1", "processJob:answers without asking the server are cache hits or ErrUnsupported", fi.Decl.Pos(), itoa(nRunless)+" run-less returns",
+		"processJob can return at "+bad+" without calling query.Run() and without it being a cached successful answer or ErrUnsupported: a remembered failure keeps answering for this upstream after it has recovered, and every request keeps failing over")
 }
